@@ -103,15 +103,31 @@ class Model(object):
 
 
 def parse_poscar(text):
-    """Peer-side parser of the plain dialect written by Supercell.POSCAR()."""
+    """Peer-side parser of the POSCAR text written by Supercell.POSCAR() (tolerates an element-name line,
+    a 'Selective dynamics' line and Cartesian coordinates, so that a differently formatted but correct
+    writer is still understood)."""
     lines = text.split("\n")
     name = lines[0]
     a0 = float(lines[1])
     latt = [[float(x) for x in lines[2 + k].split()] for k in range(3)]
-    counts = [int(x) for x in lines[5].split()]
-    mode = lines[6].strip()
+    at = 5
+    names = None
+    if not ("0" <= lines[at].split()[0][0] <= "9"):
+        names = lines[at].split()                 # element names
+        at += 1
+    counts = [int(x) for x in lines[at].split()]
+    parse_poscar.names = names
+    at += 1
+    if lines[at].strip()[:1] in ("s", "S"):
+        at += 1
+    mode = lines[at].strip()
+    at += 1
     n = sum(counts)
-    coords = [[float(x) for x in lines[7 + k].split()[:3]] for k in range(n)]
+    coords = [[float(x) for x in lines[at + k].split()[:3]] for k in range(n)]
+    if mode[:1] in ("c", "C", "k", "K"):
+        inv = np.linalg.inv(np.array(latt).T * a0)
+        coords = [list(np.dot(inv, np.array(u))) for u in coords]
+        mode = "Direct"
     return name, a0, latt, counts, mode, coords
 
 
@@ -208,11 +224,12 @@ class Run(RunBase):
             self.fail("insane", "{}: object {} __sane__() is False".format(where, k))
         if list(sup.chemistry) != m.chem:
             self.fail("chem-model", "{}: object {} chemistry {} != model {}".format(where, k, sup.chemistry, m.chem))
-        st = ",".join((c + "_i({})".format(len(l))) if n in sup.interstitial else (c + "({})".format(len(l)))
-                      for n, (c, l) in enumerate(zip(m.chem, m.order)))
-        if sup.stoichiometry() != st:
-            self.fail("stoichiometry", "{}: object {} stoichiometry {!r} != model {!r}".format(
-                where, k, sup.stoichiometry(), st))
+        # stoichiometry(): only the counts are compared (its formatting is not part of C28)
+        import re as _re
+        cnt = [int(x) for x in _re.findall(r"\((\d+)\)", sup.stoichiometry())]
+        if cnt != [len(l) for l in m.order]:
+            self.fail("stoichiometry", "{}: object {} stoichiometry {!r} but the model has counts {}".format(
+                where, k, sup.stoichiometry(), [len(l) for l in m.order]))
 
     def check_all(self, where):
         for k in range(len(self.objs)):
@@ -498,9 +515,22 @@ class Run(RunBase):
         # the text must say what the model says (peer-side parse; independent of POSCAR_occ)
         name, a0, latt, counts, mode, coords = parse_poscar(text)
         self.checks += 1
-        if counts != [len(l) for l in ms.order]:
-            self.fail("poscar-text", "POSCAR counts {} != model {}".format(counts, [len(l) for l in ms.order]))
-        flat = [i for l in ms.order for i in l]
+        # which species does each count column describe? by name if the writer gives names, else by position
+        # (the reader's own convention); columns may be fewer than the declared species if the rest is empty
+        names = parse_poscar.names
+        if names is not None and all(n in ms.chem for n in names) and len(set(names)) == len(names):
+            cols = [ms.chem.index(n) for n in names]
+        else:
+            cols = list(range(len(counts)))
+        described = [0] * self.nchem
+        ok = len(cols) == len(counts) and all(0 <= c < self.nchem for c in cols)
+        if ok:
+            for c, n in zip(cols, counts):
+                described[c] += n
+        if not ok or described != [len(l) for l in ms.order]:
+            self.fail("poscar-text", "POSCAR describes species counts {} (columns {}) but the model has {}".format(
+                counts, names or "by position", [len(l) for l in ms.order]))
+        flat = [i for c in cols for i in ms.order[c]]
         for u, i in zip(coords, flat):
             if not np.allclose(u, src.pos[i], atol=1e-12):
                 self.fail("poscar-text", "POSCAR lists {} where site {} = {} is expected".format(u, i, src.pos[i]))
